@@ -20,8 +20,7 @@ RULE = ("Hypothesis draws 1-5 classes (inheritance depth <= 4, explicit and impl
         "a shadowing field called), judged from the model's trace; distinct by program text.")
 ASSUMPTIONS = ["reference evaluator's class model: ordered field sets collected from the text of init of the class "
                "and its ancestors, single inheritance, lexical super, statics on the class only, field-shadows-method",
-               "undefined property errors: PropertyError and RuntimeError are both accepted when the message is the "
-               "'Undefined property' one (the tree uses both and the property says only 'a property error')"]
+               "touching an undeclared field or method must raise PropertyError (read, write and invoke alike)"]
 GATES = {"inherit": 0.40, "nontrivial": 0.25}
 LEVEL_TEXT = ("Generated-program search against an independent class/dispatch model; finds dispatch, field layout, "
               "super and bound-method violations in generated hierarchies and call-site histories; bounded by the "
